@@ -388,7 +388,9 @@ def gen_compat_name(rng):
                    for _ in range(rng.choice([1, 2, 3, 5])))
 
 
-SEGS = ['a', 'b.txt', 'index.html', 'Dir', 'IMG.PNG', '%2F', '%2f', '%2E', '%2e%2e', '%2E%2E', '.', '..', '...',
+FORMAT_NAMES = ['{0}', '{0:c}', 'report{0:c}.txt', '..{0!s:.0}', '.{0!s:.0}', '{0!s:.0}', '{}', '{x}', '{0.__class__}', '{0:>300}',
+                '{{', '}', '{', '{0}{0}', '%s', '%(x)s', '%d', '%', '%(', '${x}', '$x', '\\1', '\\g<0>', 'a{0:c}b{1}']
+SEGS = FORMAT_NAMES + ['a', 'b.txt', 'index.html', 'Dir', 'IMG.PNG', '%2F', '%2f', '%2E', '%2e%2e', '%2E%2E', '.', '..', '...',
         '%2E.', '.%2E', '%00', 'a%00b', '%5C', '\\', '%5c..%5c', '..%2F..%2Fetc%2Fpasswd', '%2Fetc%2Fpasswd',
         '..%5C..%5Cx', '%2F%2F', 'é', '日本', '%C3%A9', '%FF', '%E0%80', '%ED%A0%80', '%F0%9F%98%80', '%F0%90',
         '%C3', '%', '%4', '%zz', '%%41', '%25', '%252F', '%252E%252E', ' ', '%20', 'a%20', 'a.', 'a ', 'a%2E',
@@ -406,7 +408,7 @@ HOSTS = ['example.com', 'example.com', 'EXAMPLE.com', 'h', 'localhost', '127.0.0
 GOOD_HOSTS = ['example.com', 'EXAMPLE.com', 'h', 'localhost', '127.0.0.1', '[::1]', '[2001:DB8::1]', 'bücher.de',
               'xn--bcher-kva.de', 'a.b.c.d.e', 'h.', 'ex_ample', '1.2.3', '日本.jp', 'a' * 63 + '.com']
 PORTS = ['', '', '', '', ':80', ':8080', ':21', ':443', ':0', ':65535', ':65536', ':', ':08080', ':x', ':-1']
-QUERIES = ['', '', '', '?', '?a=b', '?x=/', '?../..', '?a=%2F&b=..', '?q=é', '?a b', '?/', '?%00', '?a=b/', '?.', '?..',
+QUERIES = ['?{0:c}', '?a={0!s:.0}/..', '?%s', '', '', '', '?', '?a=b', '?x=/', '?../..', '?a=%2F&b=..', '?q=é', '?a b', '?/', '?%00', '?a=b/', '?.', '?..',
            '?a#frag', '?' + 'q' * 300, '?a=\\', '?%2E%2E%2F']
 
 
@@ -814,7 +816,10 @@ def check_writer(ctx, real, scratch, case):
     except Exception as e:
         outcome = 'OSError' if type(e).__name__ in ('ProtocolError', 'OSError', 'IOError') else exc_name(e)
         err = repr(e)
-        chosen = final = None
+        chosen = final = getattr(locals().get('session'), '_filename', None)
+        if chosen:
+            ctx.tag('writer:raised-after-choice:' + outcome)
+            outcome = 'OSError'
     ctx.case(key, tags=['writer:' + wname, 'writer:' + outcome] + ['writer:' + o for o in obstacles])
     if outcome not in ('ok', 'OSError'):        # OSError / ProtocolError: "Server not able to continue file download"
         ctx.fail('namer-raises', 'writer_session', dict(case, prior_settings=prior),
@@ -846,7 +851,8 @@ def gen_writer_case(rng):
     flags = {'adjust': rng.random() < 0.3, 'trust': rng.random() < 0.2, 'cont': rng.random() < 0.1,
              'status': rng.choice([200, 200, 200, 404, 302, 206]),
              'ctype': rng.choice([None, 'text/html', 'text/css'])}
-    obstacles = [o for o in ('dir-at-file', 'file-at-file', 'file-at-dir') if rng.random() < 0.2]
+    hot = any(ch in raw for ch in '{}%$')       # template look-alikes matter when a suffix has to be appended
+    obstacles = [o for o in ('dir-at-file', 'file-at-file', 'file-at-dir') if rng.random() < (0.45 if hot else 0.2)]
     if 'dir-at-file' in obstacles and 'file-at-file' in obstacles:
         obstacles.remove('file-at-file')
     return {'stream': 'writer', 'cfg': cfg, 'raw': raw, 'header': header, 'writer': rng.choice(WRITERS),
@@ -1100,7 +1106,7 @@ def check_argv(ctx, real, scratch, case, pending):
     os.makedirs(root_dir)
     argv = argv_of(case, root_dir)
     key = ('argv', tuple(map(tuple, case['modes'])), tuple(case['opts']), case['prefix'], tuple(case['urls']),
-           case['header'], case.get('status', 200), case.get('ctype'))
+           case.get('existing'), case['header'], case.get('status', 200), case.get('ctype'))
     try:
         args, writer = build_writer_from_argv(real, argv)
     except SystemExit:
@@ -1135,6 +1141,17 @@ def check_argv(ctx, real, scratch, case, pending):
         else:
             request, response = make_response(real, raw, case['header'], status=case.get('status', 200),
                                               content_type=case.get('ctype'))
+        existing = case.get('existing')
+        if existing and (case['prefix'] or '').startswith('<ROOT>'):
+            # an earlier run / an earlier download already left something at the target
+            first = namer.get_filename(request.url_info)
+            if not containment_problem(first, root, cfg) and '\x00' not in first:
+                if existing == 'dir':
+                    os.makedirs(first, exist_ok=True)
+                else:
+                    os.makedirs(os.path.dirname(first), exist_ok=True)
+                    if not os.path.isdir(first):
+                        open(first, 'wb').close()
         session = writer.session()
 
         def open_file(filename, response, mode='wb+'):
@@ -1148,7 +1165,12 @@ def check_argv(ctx, real, scratch, case, pending):
     except Exception as e:
         outcome = 'OSError' if type(e).__name__ in ('ProtocolError', 'OSError', 'IOError') else exc_name(e)
         err = repr(e)
-        chosen = final = None
+        # a name chosen before the exception is still judged; an exception AFTER the choice (e.g. the
+        # timestamping session touching request.fields of an ftp request) is not the namer's
+        chosen = final = getattr(locals().get('session'), '_filename', None)
+        if chosen:
+            ctx.tag('argv:raised-after-choice:' + outcome)
+            outcome = 'OSError'
     if outcome not in ('ok', 'OSError'):
         ctx.fail('namer-raises', 'argv_writer', dict(case),
                  'wpull %s: the writer session raises %s: no local path is chosen'
@@ -1197,6 +1219,14 @@ def argv_cases(rng, n_random):
     for ms in (['lower'], ['upper'], ['lower', 'nocontrol'], ['windows', 'lower'], ['unix', 'upper']):
         for u in ARGV_FTP[:4]:
             cases.append(mk([ms], ['-x'], '<ROOT>', u))
+    # second download / second run: the target is already there (plain `wpull URL` uses the anti-clobber
+    # writer, -r the ignore writer, -N timestamping, -nc ...), names that look like templates
+    for opts in ([], ['-x'], ['-r'], ['-N'], ['-nc'], ['-c'], ['-x', '--content-disposition']):
+        for url in FORMAT_URLS[::3] + ARGV_HTTP[:2] + ARGV_FTP[4:6]:
+            for existing in ('file', 'dir'):
+                c = mk([], opts, '<ROOT>', url)
+                c['existing'] = existing
+                cases.append(c)
     cases.append(mk([['ascii', 'ascii']], [], '<ROOT>', ARGV_FTP[0]))
     cases.append(mk([['windows'], ['lower']], ['-x'], '<ROOT>', ARGV_FTP[0]))        # the last occurrence replaces the first
     cases.append(mk([['nocontrol'], ['unix', 'upper']], ['-x'], '<ROOT>', ARGV_FTP[4]))
@@ -1220,11 +1250,13 @@ def argv_cases(rng, n_random):
             k = rng.choice([1, 2, 3])
             url = 'ftp://example.com/' + '/'.join(gen_seg(rng) for _ in range(k)) + rng.choice(['', '/'])
             cases.append(mk(ms, opts, prefix, url, None, extra))
+            cases[-1]['existing'] = rng.choice([None, None, 'file', 'dir'])
         else:
             k = rng.choice([0, 1, 2])
             url = rng.choice(['http', 'https']) + '://example.com/' + '/'.join(gen_seg(rng) for _ in range(k)) + rng.choice(['', '/', '?a=/..'])
             cases.append(mk(ms, opts, prefix, url, gen_header(rng) if rng.random() < 0.85 else None, extra,
                             rng.choice([200, 200, 404]), rng.choice([None, 'text/html', 'text/css'])))
+            cases[-1]['existing'] = rng.choice([None, None, 'file', 'dir'])
     return cases
 
 
@@ -1275,6 +1307,31 @@ def stream_foldtable(ctx, real, thorough):
     ctx.evaluations += n
     ctx.tag('foldtable', n)
     ctx.note('fold_table_real_code', '%d single non-ASCII characters x lower/upper through the real safe_filename' % n)
+
+
+FORMAT_URLS = (['http://example.com/%s/%s/escaped.txt' % (n, n) for n in FORMAT_NAMES if '/' not in n]
+               + ['http://example.com/pub/%s' % n for n in FORMAT_NAMES]
+               + ['http://example.com/pub/x.txt?%s' % n for n in FORMAT_NAMES[:12]])
+
+
+def writer_matrix():
+    """every writer kind x the target already there (as a file, as a directory, not at all) x names that look
+    like str.format / %-format / string.Template / re templates (a suffix built from the sanitised path with a
+    template mechanism would expand them AFTER sanitising)"""
+    cfg = {'os_type': 'unix', 'no_control': True, 'ascii_only': False, 'case': None, 'max_length': None,
+           'index': 'index.html', 'use_dir': True, 'cut': None, 'protocol': False, 'hostname': True}
+    for w in WRITERS:
+        for obstacles in (['file-at-file'], ['dir-at-file'], ['file-at-dir'], []):
+            for url in FORMAT_URLS:
+                yield {'stream': 'writer', 'cfg': cfg, 'raw': url, 'header': None, 'writer': w,
+                       'flags': {'adjust': False, 'trust': False, 'cont': False, 'status': 200, 'ctype': None},
+                       'obstacles': obstacles}
+    for w in WRITERS:       # the same names arriving as Content-Disposition values, target existing
+        for n in FORMAT_NAMES:
+            yield {'stream': 'writer', 'cfg': cfg, 'raw': 'http://example.com/a/b.txt',
+                   'header': 'attachment; filename=%s' % n, 'writer': w,
+                   'flags': {'adjust': True, 'trust': True, 'cont': False, 'status': 200, 'ctype': 'text/html'},
+                   'obstacles': ['file-at-file']}
 
 
 # ------------------------------------------------------------------ entry points
@@ -1414,6 +1471,8 @@ def run(ctx):
     # the real writer sessions
     scratch = tempfile.mkdtemp(prefix='c15-')
     try:
+        for case in writer_matrix():
+            check_writer(ctx, real, scratch, case)
         for _ in range(ctx.scale(3000, 40000)):
             check_writer(ctx, real, scratch, gen_writer_case(rng))
     finally:
